@@ -253,7 +253,23 @@ class LocalFileStore(Store):
         for (path, key) in paths.items():
             loc = locs[path]
             loc_dir = os.path.dirname(loc)
-            os.makedirs(loc_dir, exist_ok=True)
+            try:
+                os.makedirs(loc_dir, exist_ok=True)
+            except (FileExistsError, NotADirectoryError):
+                # A path committed by an earlier evaluation is a prefix of this one: its link sits where a
+                # directory is needed. (Inside one evaluation this is refused before anything runs.)
+                raise DDSException(
+                    f"Cannot commit the path {path}: one of its prefixes is already committed as a path of its own "
+                    f"under {self._data_root}. A path that leads to an object cannot also have sub-paths.",
+                    DDSErrorCode.OVERLAPPING_PATH,
+                )
+            if os.path.isdir(loc) and not os.path.islink(loc):
+                # The other way round: this path is a prefix of paths committed earlier.
+                raise DDSException(
+                    f"Cannot commit the path {path}: it is a prefix of paths that are already committed "
+                    f"({loc} is a directory). A path that leads to an object cannot also have sub-paths.",
+                    DDSErrorCode.OVERLAPPING_PATH,
+                )
             loc_blob = os.path.join(self._root, "blobs", key)
             if os.path.islink(loc) and os.readlink(loc) == loc_blob:
                 _logger.debug(f"Link {loc} up to date")
